@@ -64,3 +64,16 @@ pub struct Deep<'a> {
     n: Nested<'a>,
     g: Generic<'a, RC>,
 }
+
+/// a field whose type is a bare type parameter of the struct
+#[derive(SystemData)]
+pub struct Wrapper<'a, D>
+where
+    D: SystemData<'a>,
+{
+    inner: D,
+    extra: Read<'a, RA>,
+}
+
+#[derive(SystemData)]
+pub struct WrapperTuple<'a, D: SystemData<'a>>(D, Write<'a, RB>);
